@@ -381,6 +381,12 @@ func (w *World) verifyFuncOnce(fi *FuncInfo, props []string, prefix []int, pathM
 			}
 		}
 		if fi.Spec != nil {
+			for _, lu := range fi.Spec.UsesAt {
+				env := fx.specEnv(exit, fx.entry, fi.Body.Lbrace)
+				env.bound = fx.resultBindings(exit, rc)
+				fx.bindParamsFromEntry(env, fi)
+				fx.assumeLemmaAt(exit, env, lu)
+			}
 			for k, e := range fi.Spec.Ensures {
 				env := fx.specEnv(exit, fx.entry, fi.Body.Lbrace)
 				env.bound = fx.resultBindings(exit, rc)
@@ -537,6 +543,9 @@ func (w *World) verifyLemma(l *Lemma) (res *FuncResult) {
 		for _, u := range l.Uses {
 			fx.assumeLemma(st, env, u)
 		}
+		for _, lu := range l.UsesAt {
+			fx.assumeLemmaAt(st, env, lu)
+		}
 	}
 	if l.Induct == "" {
 		st, env := mk()
@@ -544,6 +553,8 @@ func (w *World) verifyLemma(l *Lemma) (res *FuncResult) {
 		for _, r := range l.Requires {
 			st.assume(fx.specBool(env, r.Expr))
 		}
+		vq := c.oblige(st, "vacuity", "requires", "true", "the hypotheses of the lemma are satisfiable", token.Position{Filename: l.File, Line: l.Line})
+		vq.Vacuity = true
 		for k, e := range l.Ensures {
 			phi := fx.specBool(env, e.Expr)
 			c.oblige(st, "lemma", clauseAnchor("L", e, k), phi, e.Text, token.Position{Filename: l.File, Line: e.Line})
@@ -593,6 +604,8 @@ func (w *World) verifyLemma(l *Lemma) (res *FuncResult) {
 		for _, r := range l.Requires {
 			s.assume(fx.specBool(&senv, r.Expr))
 		}
+		vq := c.oblige(s, "vacuity", "step", "true", "the hypotheses of the induction step are satisfiable", token.Position{Filename: l.File, Line: l.Line})
+		vq.Vacuity = true
 		for k, e := range l.Ensures {
 			c.oblige(s, "lemma-step", clauseAnchor("L", e, k), fx.specBool(&senv, e.Expr), e.Text, token.Position{Filename: l.File, Line: e.Line})
 		}
@@ -606,6 +619,12 @@ func (w *World) verifyLemma(l *Lemma) (res *FuncResult) {
 
 // assumeLemma adds a proved lemma as a universally quantified fact.
 func (fx *Fx) assumeLemma(st *State, env *SpecEnv, name string) {
+	fx.assumeLemmaAt(st, env, &LemmaUse{Name: name})
+}
+
+// assumeLemmaAt: the lemma with some parameters instantiated (evaluated in env), the others universally quantified.
+func (fx *Fx) assumeLemmaAt(st *State, env *SpecEnv, lu *LemmaUse) {
+	name := lu.Name
 	l, ok := fx.w.Lemmas[name]
 	if !ok {
 		sfail("unknown lemma %q", name)
@@ -615,13 +634,32 @@ func (fx *Fx) assumeLemma(st *State, env *SpecEnv, name string) {
 		n.pkg = env.pkg
 	}
 	var decls []string
+	seen := map[string]bool{}
 	for _, p := range l.Params {
 		srt, gt := env.sortOfName(p.Type)
+		if ae, ok := lu.Args[p.Name]; ok {
+			seen[p.Name] = true
+			v := fx.specEval(env, ae)
+			if v.S != srt {
+				sfail("use lemma %s: argument %s has sort %s, parameter wants %s", name, p.Name, v.S, srt)
+			}
+			n.bound[p.Name] = Val{T: fx.c.define("la", srt, v.T), S: srt, GT: gt}
+			continue
+		}
 		pn := p.Name + "!L"
 		decls = append(decls, fmt.Sprintf("(%s %s)", pn, srt))
 		n.bound[p.Name] = Val{T: pn, S: srt, GT: gt}
 	}
+	for a := range lu.Args {
+		if !seen[a] {
+			sfail("use lemma %s: no parameter %s", name, a)
+		}
+	}
 	var reqs, ens []string
+	if l.Induct != "" {
+		// proved by induction from 0 upwards: that is all it says
+		reqs = append(reqs, fmt.Sprintf("(>= %s 0)", n.bound[l.Induct].T))
+	}
 	for _, r := range l.Requires {
 		reqs = append(reqs, fx.specBool(n, r.Expr))
 	}
@@ -633,6 +671,47 @@ func (fx *Fx) assumeLemma(st *State, env *SpecEnv, name string) {
 		body = fmt.Sprintf("(=> (and %s) %s)", strings.Join(reqs, " "), body)
 	}
 	if len(decls) > 0 {
+		if len(l.Patterns) > 0 {
+			// pattern terms that mention every parameter still quantified are alternative patterns on their own;
+			// otherwise the terms mentioning some of them form one multi-pattern
+			var qv []string
+			for _, d := range decls {
+				qv = append(qv, strings.Fields(strings.Trim(d, "()"))[0])
+			}
+			mentions := func(t, v string) bool {
+				for _, tok := range strings.FieldsFunc(t, func(r rune) bool { return r == '(' || r == ')' || r == ' ' }) {
+					if tok == v {
+						return true
+					}
+				}
+				return false
+			}
+			var full, some []string
+			for _, pe := range l.Patterns {
+				t := fx.specEval(n, pe).T
+				cnt := 0
+				for _, v := range qv {
+					if mentions(t, v) {
+						cnt++
+					}
+				}
+				if cnt == len(qv) {
+					full = append(full, t)
+				} else if cnt > 0 {
+					some = append(some, t)
+				}
+			}
+			switch {
+			case len(full) > 0:
+				var ps []string
+				for _, t := range full {
+					ps = append(ps, ":pattern ("+t+")")
+				}
+				body = fmt.Sprintf("(! %s %s)", body, strings.Join(ps, " "))
+			case len(some) > 0:
+				body = fmt.Sprintf("(! %s :pattern (%s))", body, strings.Join(some, " "))
+			}
+		}
 		body = fmt.Sprintf("(forall (%s) %s)", strings.Join(decls, " "), body)
 	}
 	st.assume(body)
